@@ -226,3 +226,63 @@ Proof.
     apply until_ws_plain; [|exact Hr]. apply forallb_forall. intros x Hx. rewrite forallb_forall in Hpl.
     specialize (Hpl x Hx). unfold plainc in Hpl. apply andb_true_iff in Hpl. tauto.
 Qed.
+
+(* ---------- program name with backslashes (no double quote): exact characterisation ---------- *)
+
+(* trailing backslashes of (n backslashes followed by s) *)
+Fixpoint tb (s : str) (n : nat) : nat :=
+  match s with
+  | [] => n
+  | c :: r => if c =? 92 then tb r (S n) else tb r 0
+  end.
+
+Lemma repeat_S_app (x : N) n l : repeat x (S n) ++ l = repeat x n ++ x :: l.
+Proof. cbn [repeat]. rewrite repeat_cons, <- app_assoc. reflexivity. Qed.
+
+(* without a double quote the loop copies the string and doubles only the trailing run *)
+Lemma quote_body_noquote : forall s n, forallb (fun c => negb (c =? 34)) s = true ->
+  quote_body s n = repeat 92 n ++ s ++ repeat 92 (tb s n).
+Proof.
+  induction s as [|c s IH]; intros n H.
+  - cbn [quote_body tb app]. unfold u_bslash. replace (2 * n)%nat with (n + n)%nat by lia. apply repeat_app.
+  - cbn [forallb] in H. apply andb_true_iff in H. destruct H as [Hc Hs]. apply negb_true_iff in Hc.
+    cbn [quote_body tb]. unfold u_bslash, u_dquote. destruct (N.eqb_spec c 92) as [->|N92].
+    + rewrite (IH _ Hs). rewrite repeat_S_app. reflexivity.
+    + rewrite Hc. rewrite (IH _ Hs). cbn [repeat app]. reflexivity.
+Qed.
+
+Lemma forallb_repeat_noquote n : forallb (fun c => negb (c =? 34)) (repeat 92 n) = true.
+Proof. induction n as [|n IH]; [reflexivity|]. cbn [repeat forallb]. rewrite IH. reflexivity. Qed.
+
+Theorem progname_exact p rest : after_arg rest ->
+  forallb (fun c => negb (c =? 34)) p = true ->
+  parse_progname (append_quoted p ++ rest) = (p ++ (if needs_quote p then repeat 92 (tb p 0) else []), rest).
+Proof.
+  intros Hr Hp. unfold append_quoted. destruct (needs_quote p) eqn:Q.
+  - rewrite (quote_body_noquote _ _ Hp). unfold u_dquote. cbn [repeat app]. rewrite <- app_assoc. cbn [app parse_progname].
+    apply until_quote_plain. rewrite forallb_app, Hp, forallb_repeat_noquote. reflexivity.
+  - rewrite app_nil_r. destruct (unquoted_plain p Q) as [Hne Hpl]. destruct p as [|c p]; [congruence|].
+    assert (c =? 34 = false) as H34.
+    { cbn [forallb] in Hp. apply andb_true_iff in Hp. destruct Hp as [Hc _]. apply negb_true_iff in Hc. exact Hc. }
+    assert (parse_progname ((c :: p) ++ rest) = until_ws ((c :: p) ++ rest)) as ->.
+    { cbn [app parse_progname]. destruct c as [|q]; [reflexivity|].
+      destruct (N.eqb_spec (N.pos q) 34) as [E|E]; [discriminate|].
+      repeat (destruct q as [q|q|]; try reflexivity); congruence. }
+    apply until_ws_plain; [|exact Hr]. apply forallb_forall. intros x Hx. rewrite forallb_forall in Hpl.
+    specialize (Hpl x Hx). unfold plainc in Hpl. apply andb_true_iff in Hpl. tauto.
+Qed.
+
+(* hence: a name without a double quote round-trips through the program-name rule iff it needs no quoting
+   or does not end in a backslash *)
+Corollary progname_roundtrip_iff p rest : after_arg rest ->
+  forallb (fun c => negb (c =? 34)) p = true ->
+  (parse_progname (append_quoted p ++ rest) = (p, rest) <-> needs_quote p = false \/ tb p 0 = 0%nat).
+Proof.
+  intros Hr Hp. rewrite (progname_exact _ _ Hr Hp). destruct (needs_quote p).
+  - split.
+    + intros E. right. injection E as E.
+      assert (repeat 92 (tb p 0) = []) as E' by (apply (app_inv_head p); rewrite app_nil_r; exact E).
+      destruct (tb p 0); [reflexivity|discriminate].
+    + intros [E|E]; [discriminate|]. rewrite E. cbn [repeat]. rewrite app_nil_r. reflexivity.
+  - rewrite app_nil_r. split; [intros _; left; reflexivity|reflexivity].
+Qed.
